@@ -39,14 +39,17 @@ def overlap_more_than_half(p, c):
     return rov > rlen / 2 or qov > qlen / 2
 
 
-def run_case(case):
+def run_case(case, chainers=None):
+    """chainers: {(multiplier, variant): SegmentChainer} shared by the cases of a chunk - the program uses ONE chainer for every candidate of
+    every query, so chain() must be a function of the segments it is given whatever it chained before"""
     specs, rev, mult, variant = case
     from src.alignment.segment_chainer import SegmentChainer, SequentialityScorer
     scorer = SequentialityScorer(mult, variant)
     segs = [make_segment(s, rev, i) for i, s in enumerate(specs)]
     try:
         with time_limit(10):
-            out = SegmentChainer(scorer).chain(list(segs))
+            chainer = SegmentChainer(scorer) if chainers is None else chainers.setdefault((mult, variant), SegmentChainer(scorer))
+            out = chainer.chain(list(segs))
     except CaseTimeout:
         return case, ['exception:timeout'], 0
     except Exception as e:
@@ -109,11 +112,13 @@ def run_case(case):
 
 def run_chunk(cases):
     out, nt = [], 0
+    chainers, last = {}, {}
     for c in cases:
-        case, bad, n = run_case(c)
+        case, bad, n = run_case(c, chainers)
         nt += 1 if n >= 2 else 0
         if bad:
-            out.append((case, bad))
+            out.append((case, bad, last.get((c[2], c[3]))))
+        last[(c[2], c[3])] = c
     return len(cases), nt, out[:10]
 
 
@@ -165,18 +170,20 @@ def bounded(repo, tier, seed):
     res = pmap(run_chunk, chunks, repo)
     viol = {}
     for r in res:
-        for case, bad in r[2]:
+        for case, bad, prev in r[2]:
             fid = GS if bad[0] in ('join_score_never_positive', 'minus_infinity_exactly_when_overlap_exceeds_half_of_the_shorter',
                                    'contiguous_join_scores_zero', 'join_score_scales_with_the_multiplier') else CH
             k = f"{fid}::ensures::{bad[0]}"
             v = dict(key=k, blame=fid, input=dict(segments=[list(s) if s else None for s in case[0]], reverse=case[1],
-                                                  multiplier=case[2], variant=case[3]), observed=bad, required='C14 statement')
+                                                  multiplier=case[2], variant=case[3],
+                                                  previous_call_on_the_same_chainer=([list(x) if x else None for x in prev[0]], prev[1]) if prev else None),
+                     observed=bad, required='C14 statement')
             if k not in viol or len(case[0]) < len(viol[k]['input']['segments']):
                 viol[k] = v
     return result(sum(r[0] for r in res), sum(r[1] for r in res),
                   "segment sets of 1-6 segments (a pool of 10 geometries with overlaps, gaps, off-diagonal and contained segments; random sets; with and "
                   "without empty segments), both strands, both join-score variants, multipliers 0/0.5/1/2; a unit-coordinate lattice of segment pairs (lengths 0-7, overlaps -1..4 on each axis) around the half-overlap boundary; the chain total is compared with the maximum over "
-                  "ALL order-respecting subsets (exhaustive 2^n enumeration); non-trivial = chain of >= 2 segments",
+                  "ALL order-respecting subsets (exhaustive 2^n enumeration); the cases of a chunk share one chainer per (multiplier, variant), as all candidates do in the program; non-trivial = chain of >= 2 segments",
                   [dict(segments=[list(s) if s else None for s in c[0]], reverse=c[1], multiplier=c[2], variant=c[3]) for c in allc[300:303]],
                   list(viol.values())[:5], exhaustive=False, bounds="<= 6 segments per set")
 
@@ -185,5 +192,9 @@ def replay(repo, rp):
     from bcheck.common import use_repo
     use_repo(repo)
     i = rp['input']
-    case, bad, _ = run_case((tuple(tuple(s) if s else None for s in i['segments']), i['reverse'], i['multiplier'], i['variant']))
+    chainers = {}
+    prev = i.get('previous_call_on_the_same_chainer')
+    if prev:
+        run_case((tuple(tuple(s) if s else None for s in prev[0]), prev[1], i['multiplier'], i['variant']), chainers)
+    case, bad, _ = run_case((tuple(tuple(s) if s else None for s in i['segments']), i['reverse'], i['multiplier'], i['variant']), chainers)
     return (not bad), bad
